@@ -1,9 +1,10 @@
 #!/bin/sh
-# tools/import_seeded.sh C01 C05 ... : copy sub-agent output /tmp/seeded-out/<ID>/{patch,demo,meta}_{A,B} into /verif/seeded/<ID>-{A,B}/
+# tools/import_seeded.sh <srcdir> <letters> C01 C05 ... : copy sub-agent output <srcdir>/<ID>/{patch,demo,meta}_<X> into /verif/seeded/<ID>-<X>/
+SRC="$1"; LET="$2"; shift; shift
 cd "$(dirname "$0")/.."
 for ID in "$@"; do
-  for X in A B; do
-    S=/tmp/seeded-out/$ID
+  for X in $LET; do
+    S=$SRC/$ID
     if [ -f $S/patch_$X.diff ] && [ -f $S/demo_$X.py ] && [ -f $S/meta_$X.json ]; then
       D=seeded/$ID-$X; mkdir -p $D
       cp $S/patch_$X.diff $D/patch.diff; cp $S/demo_$X.py $D/demo.py; cp $S/meta_$X.json $D/meta.json
